@@ -291,6 +291,23 @@ def QuietRun : St → List Ev → Prop
      | .mig m => QuietStep slotOf s m
      | _ => True) ∧ ∀ s', step slotOf s e = .ok s' → QuietRun s' es
 
+/-- decidable form of `QuietStep` -/
+def quietStepB (s : St) (m : Mig) : Bool :=
+  match applyMig slotOf s.sv m with
+  | some sv' => s.redir.all (fun r => decide (answer slotOf sv' r.origin r.cmd.key false ≠ .exec))
+  | none => true
+
+/-- decidable form of `QuietRun` (the run is a function of the event list) -/
+def quietRunB : St → List Ev → Bool
+  | _, [] => true
+  | s, e :: es =>
+    (match e with
+     | .mig m => quietStepB slotOf s m
+     | _ => true) &&
+    (match step slotOf s e with
+     | .ok s' => quietRunB s' es
+     | .error _ => true)
+
 /-! ### transaction batcher -/
 
 inductive TPhase where
